@@ -32,9 +32,43 @@ def freshness_lemma(rep):
                    witness=str(sv.model()) if r == z3.sat else None))
 
 
+def bounded(rep, tier):
+    from vrf.core import BOUNDED_OK
+    from vrf.bounded.lru_monitor import lru_sequences, lookup_sequences
+    t0 = time.time()
+    L = 4 if tier == "quick" else 6
+    n, bad = lru_sequences(L)
+    bound = "every sequence of <= %d set/get operations over capacity+3 keys, capacity in {1,2,4}, counter clock" % L
+    if bad:
+        rep.add(Result("C14.lru-sequences", VIOLATED, klass="B", backend="native-oracle", function="mako.util:LRUCache", bound=bound, evaluations=n,
+                       detail=bad[0]["problem"], witness=bad[0], replayed=True, replay={"failures": bad[:3]}, time_s=time.time() - t0))
+    else:
+        rep.add(Result("C14.lru-sequences", BOUNDED_OK, klass="B", backend="native-oracle", function="mako.util:LRUCache", bound=bound, evaluations=n,
+                       time_s=time.time() - t0, detail="never more than 1.5n entries; only the least recently fetched evicted, and only when over the bound"))
+    t1 = time.time()
+    L2 = 4 if tier == "quick" else 5
+    n2, bad2 = lookup_sequences(L2)
+    bound2 = "every sequence of <= %d get_template calls over n+3 URIs, collection_size n in {1,2}, filesystem_checks on/off" % L2
+    if bad2:
+        rep.add(Result("C14.lookup-lru-sequences", VIOLATED, klass="B", backend="native-oracle", function="mako.lookup:TemplateLookup.get_template", bound=bound2,
+                       evaluations=n2, detail=bad2[0]["problem"], witness=bad2[0], replayed=True, replay={"failures": bad2[:3]}, time_s=time.time() - t1))
+    else:
+        rep.add(Result("C14.lookup-lru-sequences", BOUNDED_OK, klass="B", backend="native-oracle", function="mako.lookup:TemplateLookup.get_template", bound=bound2,
+                       evaluations=n2, time_s=time.time() - t1, detail="each lookup renders its own file's content; the cache never exceeds 1.5n"))
+    fails = [r for r in rep.results if r.klass == "B" and r.status == VIOLATED]
+    if fails:
+        for r in rep.results:
+            if r.klass == "P" and not r.replayed and (r.status == VIOLATED or (r.status == UNDECIDED and r.cand)) and "LRUCache" in r.oid:
+                r.replayed = True
+                r.replay = dict(r.replay or {}, native_input=fails[0].witness, how=fails[0].backend)
+
+
 def run(rep, tier):
     rep.trust(*BASE_TRUST)
     rep.assume(*BASE_ASSUME)
     rep.assume("module._modified_time is stamped with time.time() at code generation, which is not later than the moment the constructor returns")
+    rep.assume("A-clock: timeit.default_timer does not go backwards",
+               "the lookup contracts see _collection as a plain dict (collection_size=-1); with an LRUCache the same code runs through LRUCache.__setitem__/__getitem__, whose contracts are proved separately; their composition is covered by the bounded lookup sequences only")
     run_pyvc(rep, contracts_for("C14"), native_limit=0)
     freshness_lemma(rep)
+    bounded(rep, tier)
